@@ -279,12 +279,26 @@ func (fs *factSet) entails(l *lin) bool {
 		return true
 	}
 	// strengthen with disequalities d != 0: if d >= 0 is entailed then d >= 1, and vice versa
+	// (iterated: len != 0, len != 1, len != 2 with len >= 0 give len >= 3)
 	extra := []*lin{}
-	for _, d := range fs.ne {
-		if infeasible(append(append([]*lin{}, sys...), d.plus(1))) { // d <= -1 impossible → d >= 0 → d >= 1
-			extra = append(extra, d.neg().plus(1))
-		} else if infeasible(append(append([]*lin{}, sys...), d.neg().plus(1))) { // d >= 1 impossible → d <= -1
-			extra = append(extra, d.plus(1))
+	used := map[int]bool{}
+	for round := 0; round <= len(fs.ne); round++ {
+		cur := append(append([]*lin{}, sys...), extra...)
+		grew := false
+		for i, d := range fs.ne {
+			if used[i] {
+				continue
+			}
+			if infeasible(append(append([]*lin{}, cur...), d.plus(1))) { // d <= -1 impossible → d >= 0 → d >= 1
+				extra = append(extra, d.neg().plus(1))
+				used[i], grew = true, true
+			} else if infeasible(append(append([]*lin{}, cur...), d.neg().plus(1))) { // d >= 1 impossible → d <= -1
+				extra = append(extra, d.plus(1))
+				used[i], grew = true, true
+			}
+		}
+		if !grew {
+			break
 		}
 	}
 	if len(extra) > 0 {
